@@ -113,13 +113,14 @@ let is_stable cands (ins : M.Fol.pred list) (prog : M.Asp.program) (t : M.Eval.f
              is not a stable model of R + its input facts
    and symmetrically for the backward problems.  Stable models by brute force.
 
-   PUBLIC VOCABULARY (audit A4, finding F17).  The behaviour of a program is read on its own
-   predicates and ALL public predicates of the user guide: an output predicate that does not occur
-   in a program is empty in every external stable model of it.  [strict_outputs = true] tests exactly
-   that and reports the recorded finding F17 (with one direction only, the side that lacks the
-   output predicate has no completed definition for it and nothing is refuted).  The regular op
-   ([strict_outputs = false]) excuses exactly that class: an output predicate that does not occur
-   in a program is left out of THAT program's vocabulary (outside the class the two ops coincide).
+   PUBLIC VOCABULARY (audit A4, finding F17 - repaired by /repo <COMMIT-F17>).  The behaviour of a program is
+   read on its own predicates and ALL public predicates of the user guide: an output predicate that
+   does not occur in a program is empty in every external stable model of it.  Until the repair the
+   regular op excused exactly that class (an output predicate missing from a program was left out
+   of THAT program's vocabulary) and the strict variant `sem_c02_behaviour_outputs` replayed the
+   recorded finding.  Now the side that lacks an output predicate carries its empty completed
+   definition, the class is no longer excused, and both names run the same (strict) test: on a
+   tree without the repair the witness of F17 (corpus) is reported as a counterexample.
 
    RENAMED CONSTANTS (audit A2, finding F8c).  If a symbolic constant s equals a 0-ary predicate of
    the task, rename_conflicting_symbols prints it `s__s`.  The regular op reads `s__s` as the
@@ -128,7 +129,7 @@ let is_stable cands (ins : M.Fol.pred list) (prog : M.Asp.program) (t : M.Eval.f
    symbol_order chain - false for those constants, C12_chain_refuted_after_rename - out of account.
    [strict_symbols = true] takes the printed names at face value, as the prover does (the chain makes
    them distinct constants in byte order): that is the recorded finding F8c. *)
-let sem_c02_behaviour ~(strict_outputs : bool) ~(strict_symbols : bool) (e : Sexp.t) : Sexp.t =
+let sem_c02_behaviour ~(strict_symbols : bool) (e : Sexp.t) : Sexp.t =
   let open M.Fol in
   let open M.Problem in
   let ok n = L [ A "ok"; A (string_of_int n) ] in
@@ -189,7 +190,7 @@ let sem_c02_behaviour ~(strict_outputs : bool) ~(strict_symbols : bool) (e : Sex
              let outs = M.External.ug_output_predicates ug in
              let voc_of (prog : M.Asp.program) =
                let ps = M.Asp.program_preds prog in
-               uniq (ps @ ins @ (if strict_outputs then outs else List.filter (fun q -> List.mem q ps) outs)) in
+               uniq (ps @ ins @ outs) in
              let voc_l = voc_of left and voc_r = voc_of right in
              (* M read through the renaming, on R's vocabulary: p(args) holds iff M has renamed(p)(args) *)
              let side_r (m : M.Eval.fpint) : M.Eval.fpint =
@@ -236,9 +237,10 @@ let sem_c02_behaviour ~(strict_outputs : bool) ~(strict_symbols : bool) (e : Sex
   | _ -> bad "sem_c02_behaviour: %s" (to_string e)
 
 let () =
-  Ops.register "sem_c02_behaviour" (sem_c02_behaviour ~strict_outputs:false ~strict_symbols:false);
-  Ops.register "sem_c02_behaviour_outputs" (sem_c02_behaviour ~strict_outputs:true ~strict_symbols:false);
-  Ops.register "sem_c02_behaviour_symbols" (sem_c02_behaviour ~strict_outputs:false ~strict_symbols:true);
+  Ops.register "sem_c02_behaviour" (sem_c02_behaviour ~strict_symbols:false);
+  (* former strict variant (replay oracle of finding F17); now the same test *)
+  Ops.register "sem_c02_behaviour_outputs" (sem_c02_behaviour ~strict_symbols:false);
+  Ops.register "sem_c02_behaviour_symbols" (sem_c02_behaviour ~strict_symbols:true);
   Ops.register "external_decompose_small" external_decompose_full;
   Ops.register "tau_star_completion_small" tau_star_completion_full;
   Ops.register "sem_fages" sem_fages;
